@@ -252,7 +252,16 @@ class Effects:
 
     GLOBAL_RNG_OK = {'default_rng', 'Generator', 'SeedSequence', 'RandomState', 'PCG64', 'BitGenerator'}
 
+    # process-wide settings: a function that changes one leaves state behind for every later call
+    PROCESS_STATE_SETTERS = {'numpy.seterr', 'numpy.seterrcall', 'numpy.set_printoptions', 'numpy.setbufsize',
+                             'numpy.set_string_function', 'warnings.simplefilter', 'warnings.filterwarnings',
+                             'warnings.resetwarnings', 'sys.setrecursionlimit', 'locale.setlocale', 'os.putenv',
+                             'os.chdir', 'os.umask', 'numpy.random.set_state', 'scipy.fft.set_global_backend',
+                             'scipy.fft.set_workers'}
+
     def _rng_event(self, func, s, p, e, name):
+        if name in self.PROCESS_STATE_SETTERS:
+            s.global_writes.append((name + '(...)', 'call that changes process-wide state', e.loc()))
         if name.startswith('numpy.random.'):
             fn = name.split('.')[-1]
             if fn == 'default_rng':
